@@ -18,10 +18,12 @@ class SocketConnectionDispatcher(YowConnectionDispatcher):
             logger.error("Already connected?")
 
     def disconnect(self):
-        if self.socket:
+        # the read loop (another thread) resets self.socket as soon as the peer answers the shutdown by closing
+        sock = self.socket
+        if sock:
             try:
-                self.socket.shutdown(socket.SHUT_WR)
-                self.socket.close()
+                sock.shutdown(socket.SHUT_WR)
+                sock.close()
             except socket.error as e:
                 logger.error(e)
                 self.socket = None
